@@ -22,8 +22,10 @@ Definition dumpt := list (N * (bool * Z)).
 Inductive case :=
 | CHist (m : N) (evs : list hev)       (* m: 0 ModeAll, 1 ModeLatest, 2 ModeGC *)
 (* sub-command c11gc: raw DataMPT dumps of the PERSISTENT store before and after every GC half of a Run tick on a real
-   chain (GC period 1): persisted height, persisted height before the last flush, dump before, dump after *)
-| CGcRuns (mtb : Z) (runs : list (Z * Z * dumpt * dumpt)).
+   chain with GarbageCollectionPeriod gcp: persisted height, persisted height before the last flush, the value
+   MaxTraceableBlocks has at the current height by the model (configuration before Echidna, Policy's value afterwards),
+   dump before, dump after *)
+| CGcRuns (gcp : Z) (runs : list (Z * Z * Z * dumpt * dumpt)).
 
 Definition mode_of (m : N) : option mode :=
   match m with 0%N => Some MAll | 1%N => Some MLatest | 2%N => Some MGC | _ => None end.
@@ -110,33 +112,35 @@ Fixpoint go (m : mode) (s : option st) (sp : stbl) (n : Z) (evs : list hev) (mok
       end
   end.
 
-(* tryRunGC with GarbageCollectionPeriod 1: the target is persisted - MaxTraceableBlocks; it runs when the target
-   exceeds the period and the persisted height moved since the previous tick *)
-Definition gc_target (mtb p old : Z) : option Z :=
-  let tgt := p - mtb in if (1 <? tgt) && negb (p =? old) then Some tgt else None.
+(* tryRunGC: the target is (persisted - MaxTraceableBlocks) rounded down to the period; the collection runs when the
+   target exceeds the period and the persisted height crossed a period boundary since the previous tick *)
+Definition gc_target (gcp mtb p old : Z) : option Z :=
+  let tgt := (p - mtb) / gcp * gcp in if (gcp <? tgt) && negb (p / gcp =? old / gcp) then Some tgt else None.
 Definition dump_keep (G : Z) (x : bool * Z) : bool := fst x || (G <? snd x).
 Definition same_entry (x y : bool * Z) : bool := Bool.eqb (fst x) (fst y) && (snd x =? snd y).
 Definition dump_sub (a b : dumpt) : bool :=       (* every entry of a is in b, unchanged *)
   forallb (fun '((h, x) : N * (bool * Z)) => match lookup b h with Some y => same_entry x y | None => false end) a.
-Definition gc_run_model (mtb : Z) (r : Z * Z * dumpt * dumpt) : bool :=
-  let '(p, old, before, after) := r in
-  let expect := match gc_target mtb p old with
+Definition gc_run_model (gcp : Z) (r : Z * Z * Z * dumpt * dumpt) : bool :=
+  let '(p, old, mtb, before, after) := r in
+  let expect := match gc_target gcp mtb p old with
                 | Some G => filter (fun '((h, x) : N * (bool * Z)) => dump_keep G x) before
                 | None => before
                 end in
   dump_sub expect after && dump_sub after expect.
-(* specification: nothing that a state traceable for the PERSISTED chain can need is removed (active entries and
-   entries that left after height persisted - MTB stay), and nothing is added or altered *)
-Definition gc_run_spec (mtb : Z) (r : Z * Z * dumpt * dumpt) : bool :=
-  let '(p, old, before, after) := r in
+(* specification: nothing that a state inside the traceable window of the PERSISTED chain can need is removed (active
+   entries and entries that left after height persisted - MaxTraceableBlocks stay; the window length is never 0), and
+   nothing is added or altered *)
+Definition gc_run_spec (gcp : Z) (r : Z * Z * Z * dumpt * dumpt) : bool :=
+  let '(p, old, mtb, before, after) := r in
+  (0 <? mtb) &&
   dump_sub (filter (fun '((h, x) : N * (bool * Z)) => dump_keep (p - mtb) x) before) after && dump_sub after before.
 
 Definition check_case (c : case) : N :=
   match c with
-  | CGcRuns mtb runs =>
-      if mtb <=? 0 then 3%N
-      else if negb (forallb (gc_run_spec mtb) runs) then 2%N
-      else if forallb (gc_run_model mtb) runs then 0%N else 1%N
+  | CGcRuns gcp runs =>
+      if gcp <=? 0 then 3%N
+      else if negb (forallb (gc_run_spec gcp) runs) then 2%N
+      else if forallb (gc_run_model gcp) runs then 0%N else 1%N
   | CHist mn evs =>
       match mode_of mn with
       | None => 3%N
